@@ -1,4 +1,9 @@
-(* Proofs about M-REPO (core). *)
+(* Proofs about M-REPO (core), part 1: basic facts.
+   - text normalisation and addresses (fits, deduplication, the alias class);
+   - the boolean key equalities are decision procedures;
+   - how the accessors of the file system see each elementary update (rewrite base [fsdb]);
+   - the primitives move_to_cache / recheck_from_cache written as sequences of elementary updates.
+   The invariants over histories are in Repo/Inv.v, C01 in Repo/Restore.v, C17 in Repo/Methods.v. *)
 From Coq Require Import List Bool NArith Lia.
 From XV Require Import Base.Amap Base.Bytes Repo.Model.
 Import ListNotations.
@@ -18,3 +23,219 @@ Proof. unfold cache_addr; intros ->; reflexivity. Qed.
 Lemma text_alias_same_address a c1 c2 p :
   strip_crlf c1 = strip_crlf c2 -> cache_addr p (digest_of a Text c1) = cache_addr p (digest_of a Text c2).
 Proof. unfold cache_addr, digest_of; cbn; intros ->; reflexivity. Qed.
+
+(* two contents that fit one digest have the same text normal form *)
+Lemma fits_same_norm d c1 c2 : fits d c1 -> fits d c2 -> strip_crlf c1 = strip_crlf c2.
+Proof.
+  unfold fits; intros [H1|H1] [H2|H2].
+  - congruence.
+  - rewrite <- H1, H2. now rewrite strip_crlf_idem.
+  - rewrite <- H2, H1. now rewrite strip_crlf_idem.
+  - congruence.
+Qed.
+
+(* ---- key equalities --------------------------------------------------------------------------- *)
+Lemma algo_eqb_spec a b : reflect (a = b) (algo_eqb a b).
+Proof. destruct a, b; cbn; constructor; congruence. Qed.
+
+Lemma method_eqb_spec a b : reflect (a = b) (method_eqb a b).
+Proof. destruct a, b; cbn; constructor; congruence. Qed.
+
+Lemma tob_eqb_spec a b : reflect (a = b) (tob_eqb a b).
+Proof. destruct a, b; cbn; constructor; congruence. Qed.
+
+Lemma digest_eqb_spec a b : reflect (a = b) (digest_eqb a b).
+Proof.
+  destruct a as [a1 n1], b as [a2 n2]; unfold digest_eqb; cbn.
+  destruct (algo_eqb_spec a1 a2) as [->|H]; cbn; [|constructor; congruence].
+  destruct (beqb_spec n1 n2) as [->|H]; constructor; congruence.
+Qed.
+
+Lemma caddr_eqb_spec a b : reflect (a = b) (caddr_eqb a b).
+Proof.
+  destruct a as [d1 e1], b as [d2 e2]; unfold caddr_eqb; cbn.
+  destruct (digest_eqb_spec d1 d2) as [->|H]; cbn; [|constructor; congruence].
+  destruct (beqb_spec e1 e2) as [->|H]; constructor; congruence.
+Qed.
+
+Lemma beqb_neq a b : a <> b -> beqb a b = false.
+Proof. destruct (beqb_spec a b); congruence. Qed.
+Lemma caddr_eqb_refl a : caddr_eqb a a = true.
+Proof. destruct (caddr_eqb_spec a a); congruence. Qed.
+Lemma caddr_eqb_neq a b : a <> b -> caddr_eqb a b = false.
+Proof. destruct (caddr_eqb_spec a b); congruence. Qed.
+Lemma digest_eqb_refl a : digest_eqb a a = true.
+Proof. destruct (digest_eqb_spec a a); congruence. Qed.
+
+(* ---- accessors under elementary updates ---------------------------------------------------------- *)
+(* the file system after taking a fresh inode number *)
+Definition bump (f : fsys) : fsys :=
+  {| ws := ws f; objs := objs f; dirw := dirw f; inodes := inodes f; next_ino := N.succ (next_ino f); clock := clock f |}.
+Lemma fresh_ino_eq f : fresh_ino f = (next_ino f, bump f).
+Proof. reflexivity. Qed.
+
+Lemma wget_wput f p e q : wget (wput f p e) q = if beqb p q then Some e else wget f q.
+Proof. unfold wget, wput; cbn. apply get_put, beqb_spec. Qed.
+Lemma wget_wdel f p q : wget (wdel f p) q = if beqb p q then None else wget f q.
+Proof. unfold wget, wdel; cbn. apply get_del, beqb_spec. Qed.
+Lemma oget_oput f a e b : oget (oput f a e) b = if caddr_eqb a b then Some e else oget f b.
+Proof. unfold oget, oput; cbn. apply get_put, caddr_eqb_spec. Qed.
+Lemma oget_odel f a b : oget (odel f a) b = if caddr_eqb a b then None else oget f b.
+Proof. unfold oget, odel; cbn. apply get_del, caddr_eqb_spec. Qed.
+Lemma dget_dput f d w d' : dget (dput f d w) d' = if digest_eqb d d' then Some w else dget f d'.
+Proof. unfold dget, dput; cbn. apply get_put, digest_eqb_spec. Qed.
+Lemma iget_iput f i n j : iget (iput f i n) j = if N.eqb i j then Some n else iget f j.
+Proof. unfold iget, iput; cbn. apply get_put, N.eqb_spec. Qed.
+
+(* updates of one component do not show in the others *)
+Lemma wget_oput f a e q : wget (oput f a e) q = wget f q. Proof. reflexivity. Qed.
+Lemma wget_odel f a q : wget (odel f a) q = wget f q. Proof. reflexivity. Qed.
+Lemma wget_dput f d w q : wget (dput f d w) q = wget f q. Proof. reflexivity. Qed.
+Lemma wget_iput f i n q : wget (iput f i n) q = wget f q. Proof. reflexivity. Qed.
+Lemma wget_tick f q : wget (tick f) q = wget f q. Proof. reflexivity. Qed.
+Lemma wget_bump f q : wget (bump f) q = wget f q. Proof. reflexivity. Qed.
+Lemma oget_wput f p e b : oget (wput f p e) b = oget f b. Proof. reflexivity. Qed.
+Lemma oget_wdel f p b : oget (wdel f p) b = oget f b. Proof. reflexivity. Qed.
+Lemma oget_dput f d w b : oget (dput f d w) b = oget f b. Proof. reflexivity. Qed.
+Lemma oget_iput f i n b : oget (iput f i n) b = oget f b. Proof. reflexivity. Qed.
+Lemma oget_tick f b : oget (tick f) b = oget f b. Proof. reflexivity. Qed.
+Lemma oget_bump f b : oget (bump f) b = oget f b. Proof. reflexivity. Qed.
+Lemma iget_wput f p e j : iget (wput f p e) j = iget f j. Proof. reflexivity. Qed.
+Lemma iget_wdel f p j : iget (wdel f p) j = iget f j. Proof. reflexivity. Qed.
+Lemma iget_oput f a e j : iget (oput f a e) j = iget f j. Proof. reflexivity. Qed.
+Lemma iget_odel f a j : iget (odel f a) j = iget f j. Proof. reflexivity. Qed.
+Lemma iget_dput f d w j : iget (dput f d w) j = iget f j. Proof. reflexivity. Qed.
+Lemma iget_tick f j : iget (tick f) j = iget f j. Proof. reflexivity. Qed.
+Lemma iget_bump f j : iget (bump f) j = iget f j. Proof. reflexivity. Qed.
+Lemma dget_wput f p e d : dget (wput f p e) d = dget f d. Proof. reflexivity. Qed.
+Lemma dget_wdel f p d : dget (wdel f p) d = dget f d. Proof. reflexivity. Qed.
+Lemma dget_oput f a e d : dget (oput f a e) d = dget f d. Proof. reflexivity. Qed.
+Lemma dget_odel f a d : dget (odel f a) d = dget f d. Proof. reflexivity. Qed.
+Lemma dget_iput f i n d : dget (iput f i n) d = dget f d. Proof. reflexivity. Qed.
+Lemma dget_tick f d : dget (tick f) d = dget f d. Proof. reflexivity. Qed.
+Lemma dget_bump f d : dget (bump f) d = dget f d. Proof. reflexivity. Qed.
+Lemma ni_wput f p e : next_ino (wput f p e) = next_ino f. Proof. reflexivity. Qed.
+Lemma ni_wdel f p : next_ino (wdel f p) = next_ino f. Proof. reflexivity. Qed.
+Lemma ni_oput f a e : next_ino (oput f a e) = next_ino f. Proof. reflexivity. Qed.
+Lemma ni_odel f a : next_ino (odel f a) = next_ino f. Proof. reflexivity. Qed.
+Lemma ni_dput f d w : next_ino (dput f d w) = next_ino f. Proof. reflexivity. Qed.
+Lemma ni_iput f i n : next_ino (iput f i n) = next_ino f. Proof. reflexivity. Qed.
+Lemma ni_tick f : next_ino (tick f) = next_ino f. Proof. reflexivity. Qed.
+Lemma ni_bump f : next_ino (bump f) = N.succ (next_ino f). Proof. reflexivity. Qed.
+Lemma clock_wput f p e : clock (wput f p e) = clock f. Proof. reflexivity. Qed.
+Lemma clock_iput f i n : clock (iput f i n) = clock f. Proof. reflexivity. Qed.
+Lemma clock_bump f : clock (bump f) = clock f. Proof. reflexivity. Qed.
+
+Global Hint Rewrite wget_wput wget_wdel oget_oput oget_odel dget_dput iget_iput
+  wget_oput wget_odel wget_dput wget_iput wget_tick wget_bump
+  oget_wput oget_wdel oget_dput oget_iput oget_tick oget_bump
+  iget_wput iget_wdel iget_oput iget_odel iget_dput iget_tick iget_bump
+  dget_wput dget_wdel dget_oput dget_odel dget_iput dget_tick dget_bump
+  ni_wput ni_wdel ni_oput ni_odel ni_dput ni_iput ni_tick ni_bump : fsdb.
+
+(* ---- reading --------------------------------------------------------------------------------------- *)
+Lemma resolve_file f k i : resolve f k (EFile i) = Some i.
+Proof. destruct k; reflexivity. Qed.
+
+Lemma resolve_link f k a :
+  resolve f (S k) (ELink a) = match oget f a with Some e' => resolve f k e' | None => None end.
+Proof. reflexivity. Qed.
+
+Lemma read_file f i : read_entry f (EFile i) = match iget f i with Some n => Some (i_bytes n) | None => None end.
+Proof. unfold read_entry. now rewrite resolve_file. Qed.
+
+(* a symlink to an address whose entry is a regular file *)
+Lemma resolve_link_file f a i : oget f a = Some (EFile i) -> resolve f link_fuel (ELink a) = Some i.
+Proof. intros H. unfold link_fuel. rewrite resolve_link, H. apply resolve_file. Qed.
+
+Lemma resolve_link_none f a : oget f a = None -> resolve f link_fuel (ELink a) = None.
+Proof. intros H. unfold link_fuel. now rewrite resolve_link, H. Qed.
+
+(* the workspace without the entry at p when the path exists (Path::exists follows links) *)
+Definition cleared (f : fsys) (p : path) : fsys := if ws_exists f p then wdel f p else f.
+
+Lemma cleared_other f p q : p <> q -> wget (cleared f p) q = wget f q.
+Proof.
+  intros H; unfold cleared. destruct (ws_exists f p); auto.
+  rewrite wget_wdel. now rewrite beqb_neq.
+Qed.
+Lemma oget_cleared f p a : oget (cleared f p) a = oget f a.
+Proof. unfold cleared; destruct (ws_exists f p); reflexivity. Qed.
+Lemma iget_cleared f p i : iget (cleared f p) i = iget f i.
+Proof. unfold cleared; destruct (ws_exists f p); reflexivity. Qed.
+Lemma dget_cleared f p d : dget (cleared f p) d = dget f d.
+Proof. unfold cleared; destruct (ws_exists f p); reflexivity. Qed.
+Lemma ni_cleared f p : next_ino (cleared f p) = next_ino f.
+Proof. unfold cleared; destruct (ws_exists f p); reflexivity. Qed.
+Global Hint Rewrite oget_cleared iget_cleared dget_cleared ni_cleared : fsdb.
+
+(* resolution and reading depend on the cache entries and inodes only *)
+Lemma resolve_ext f g k e :
+  (forall a, oget g a = oget f a) -> resolve g k e = resolve f k e.
+Proof.
+  intros H; revert e; induction k as [|k IH]; intros [i|a]; cbn; auto.
+  rewrite H. destruct (oget f a); auto.
+Qed.
+Lemma read_entry_ext f g e :
+  (forall a, oget g a = oget f a) -> (forall i, iget g i = iget f i) -> read_entry g e = read_entry f e.
+Proof.
+  intros Ho Hi; unfold read_entry. rewrite (resolve_ext f g link_fuel e Ho).
+  destruct (resolve f link_fuel e); auto. now rewrite Hi.
+Qed.
+Lemma obj_read_ext f g a :
+  (forall a, oget g a = oget f a) -> (forall i, iget g i = iget f i) -> obj_read g a = obj_read f a.
+Proof. intros Ho Hi; unfold obj_read. rewrite Ho. destruct (oget f a); auto. now apply read_entry_ext. Qed.
+Lemma obj_exists_ext f g a :
+  (forall a, oget g a = oget f a) -> obj_exists g a = obj_exists f a.
+Proof. intros Ho; unfold obj_exists. rewrite Ho. destruct (oget f a); auto. now rewrite (resolve_ext f g link_fuel e Ho). Qed.
+
+Lemma obj_read_cleared f p a : obj_read (cleared f p) a = obj_read f a.
+Proof. apply obj_read_ext; intros; autorewrite with fsdb; auto. Qed.
+Lemma obj_exists_cleared f p a : obj_exists (cleared f p) a = obj_exists f a.
+Proof. apply obj_exists_ext; intros; autorewrite with fsdb; auto. Qed.
+
+(* ---- the primitives as sequences of elementary updates ---------------------------------------------- *)
+Definition ro (n : inode) : inode := {| i_bytes := i_bytes n; i_w := false; i_mt := i_mt n |}.
+Definition rw (n : inode) : inode := {| i_bytes := i_bytes n; i_w := true; i_mt := i_mt n |}.
+
+(* move_to_cache of a regular file: the entry leaves the workspace, its inode becomes read-only, the
+   address gets the entry, the directory ends read-only *)
+Lemma mtc_file f p a j n :
+  wget f p = Some (EFile j) -> iget f j = Some n ->
+  move_to_cache f p a = (dput (oput (iput (wdel f p) j (ro n)) a (EFile j)) (a_digest a) false, Ok).
+Proof.
+  intros Hw Hi; unfold move_to_cache. rewrite Hw, resolve_file.
+  autorewrite with fsdb. rewrite Hi. reflexivity.
+Qed.
+
+Lemma mtc_none f p a :
+  wget f p = None -> move_to_cache f p a = (dput f (a_digest a) true, Err).
+Proof. intros Hw; unfold move_to_cache. now rewrite Hw. Qed.
+
+(* the new inode of a copy *)
+Definition alloc (f : fsys) (n : inode) : fsys := iput (bump f) (next_ino f) n.
+
+Lemma rfc_unfold f p a m :
+  recheck_from_cache f p a m =
+  let f0 := cleared f p in
+  match m with
+  | Copy | Reflink =>
+      match obj_read f0 a with
+      | None => (f0, Err)
+      | Some c => match wget f0 p with
+                  | Some (ELink _) => (f0, Err)
+                  | _ => (wput (alloc (tick f0) {| i_bytes := c; i_w := true; i_mt := clock (tick f0) |}) p (EFile (next_ino f0)), Ok)
+                  end
+      end
+  | Hardlink =>
+      match wget f0 p, oget f0 a with
+      | None, Some (EFile i) => (wput f0 p (EFile i), Ok)
+      | None, Some (ELink b) => (wput f0 p (ELink b), Ok)
+      | _, _ => (f0, Err)
+      end
+  | Symlink => match wget f0 p with None => (wput f0 p (ELink a), Ok) | Some _ => (f0, Err) end
+  end.
+Proof.
+  unfold recheck_from_cache, cleared. cbv zeta.
+  destruct m; reflexivity.
+Qed.
